@@ -16,6 +16,6 @@ for c in "$@"; do
 done
 cd /repo && git checkout -- . 
 # replay files written while the seeded change was applied are not findings of the real tree
-cd /verif && git clean -fdq replays
+cd /verif && git clean -fdq replays   # NOTE: removes every uncommitted replay file: commit real ones first
 echo "${res%,}}" > "$d/checks_result.json"
 cd /verif && ./build.sh harness
